@@ -20,6 +20,7 @@ UNIT = {
             'closures': {0: {'ret': 'b: bool', 'param_types': ['Rc<SignalList>']}},
             'requires': ['old(env).mon@.owed is None'],
             'ensures': [
+                'final(env).mon@.round_done', 'final(env).mon@.unannounced_command == old(env).mon@.unannounced_command', 'final(env).mon@.commands == old(env).mon@.commands',
                 # every caught signal handed out with a command action had exactly that command run for exactly that signal,
                 # once, before the next one was handed out; nothing was run that was not owed; nothing is run inside another
                 # trap action
@@ -29,9 +30,19 @@ UNIT = {
                 'old(env).mon@.in_trap ==> final(env).mon@.runs == old(env).mon@.runs && final(env).mon@.taken_commands == old(env).mon@.taken_commands',
             ],
             'loops': {0: {'invariant': [
+                'env.mon@.round_done', 'env.mon@.unannounced_command == old(env).mon@.unannounced_command', 'env.mon@.commands == old(env).mon@.commands',
                 'env.mon@.wrong == old(env).mon@.wrong', 'env.mon@.owed is None', '!env.mon@.in_trap', 'env.mon@.in_trap == old(env).mon@.in_trap',
                 'env.mon@.runs - old(env).mon@.runs == env.mon@.taken_commands - old(env).mon@.taken_commands',
             ]}}}),
+        ('yash-semantics/src/runner.rs', ['fn run_command'], {'ret': 'r', 'rewrites': ['strip-async'],
+            'requires': ['old(env).mon@.owed is None'],
+            'ensures': [
+                # "at the next command boundary": a command is executed only right after a round of trap actions for the signals
+                # caught so far, and not at all if such an action diverts
+                'final(env).mon@.unannounced_command == old(env).mon@.unannounced_command',
+                'final(env).mon@.wrong == old(env).mon@.wrong',
+                'final(env).mon@.commands <= old(env).mon@.commands + 1',
+            ]}),
         ('@raw', '}\n'),
     ],
 }
